@@ -3,8 +3,51 @@
    Property theorems only; each is closed by a lemma from the proof files of Matcher/. *)
 From Coq Require Import String.
 From Coq Require Import List NArith Bool Arith Lia.
-From VF Require Import Matcher.Model Matcher.ParserFacts Matcher.EvalFacts C18.Entry C18.HoldsProof.
+From VF Require Import Matcher.Model Matcher.ParserFacts Matcher.EvalFacts Matcher.PrintLex Matcher.PrintParse
+  Matcher.Canon C18.Entry C18.HoldsProof.
 Import ListNotations.
+
+(* ---- grammar ---- *)
+(* parse . print = id: for every concrete syntax tree t, i.e. every expression tree (erase t)
+   together with a layout - any number of redundant parentheses with any whitespace inside them,
+   any whitespace (Python str.isspace, tabs and newlines included) around keywords, non-empty
+   where the grammar needs it (not next to a parenthesis), leading and trailing whitespace, every
+   key and pattern unquoted when that is lexically legal or in single or double quotes with the two
+   escapes, the unqualified shorthand for case-insensitive ID globs, a slash without option -
+   the parser returns exactly the tree.  [ok 0 t] is the legality of the layout, [compiled] says that
+   re.compile accepts the atoms. *)
+Theorem C18_parse_print : forall V compile t w0 w3,
+  ok 0 t -> compiled compile t -> is_ws w0 -> is_ws w3 ->
+  parse V compile (w0 ++ print t ++ w3) = Ok (erase t).
+Proof. exact parse_print. Qed.
+Print Assumptions C18_parse_print.
+
+(* every expression tree (data keys non-empty) has a legal layout, so the theorem above is about
+   every tree *)
+Theorem C18_every_tree_roundtrips : forall V compile e,
+  printable e -> (forall a, In a (atoms e) -> compile a = COk) ->
+  ok 0 (canon 0 e) /\ erase (canon 0 e) = e /\ parse V compile (print (canon 0 e)) = Ok e.
+Proof. exact every_tree_roundtrips. Qed.
+Print Assumptions C18_every_tree_roundtrips.
+
+(* precedence not > and > or and left association, for atoms a b c written in any legal style *)
+Theorem C18_precedence : forall V compile a b c sa sb sc,
+  atom_ok a sa -> atom_ok b sb -> atom_ok c sc -> compile a = COk -> compile b = COk -> compile c = COk ->
+  let pa := print_atom a sa in let pb := print_atom b sb in let pc := print_atom c sc in
+  parse V compile (pa ++ lit " or " ++ pb ++ lit " and " ++ pc) = Ok (Or (Atom a) (And (Atom b) (Atom c))) /\
+  parse V compile (pa ++ lit " and " ++ pb ++ lit " or " ++ pc) = Ok (Or (And (Atom a) (Atom b)) (Atom c)) /\
+  parse V compile (lit "not " ++ pa ++ lit " and " ++ pb) = Ok (And (Not (Atom a)) (Atom b)) /\
+  parse V compile (lit "not " ++ pa ++ lit " or " ++ pb) = Ok (Or (Not (Atom a)) (Atom b)) /\
+  parse V compile (pa ++ lit " and not " ++ pb ++ lit " or " ++ pc) = Ok (Or (And (Atom a) (Not (Atom b))) (Atom c)) /\
+  parse V compile (pa ++ lit " and " ++ pb ++ lit " and " ++ pc) = Ok (And (And (Atom a) (Atom b)) (Atom c)) /\
+  parse V compile (pa ++ lit " or " ++ pb ++ lit " or " ++ pc) = Ok (Or (Or (Atom a) (Atom b)) (Atom c)) /\
+  parse V compile (LP :: pa ++ lit " or " ++ pb ++ lit ") and " ++ pc) = Ok (And (Or (Atom a) (Atom b)) (Atom c)).
+Proof.
+  intros V compile a b c sa sb sc Ha Hb Hc Ca Cb Cc. cbv zeta.
+  repeat split; [apply or_and | apply and_or | apply not_and | apply not_or | apply and_not | apply and_left
+                | apply or_left | apply paren_or_and]; assumption.
+Qed.
+Print Assumptions C18_precedence.
 
 (* ---- evaluation ---- *)
 (* match() on an expression tree is the documented truth table over the atoms, whenever the atoms
